@@ -1,6 +1,7 @@
 import InTotoModel.Model.Wire
 import InTotoModel.Model.KeyId
 import InTotoModel.Model.Utf8
+import InTotoModel.Model.Time
 /-
   Wire codecs of whole documents: link, step, inspection, layout, signature, signed block
   (value ↔ JSON value), mirroring the serde derives on the shim structs
@@ -17,8 +18,9 @@ import InTotoModel.Model.Utf8
   members are ignored, a missing non-`Option` member is an error, the `_type` member must be a
   string; `Link` and `Layout` are rebuilt with the constant tag, `Step` and `Inspection` keep whatever string was read, a collection fails as a whole when one element fails.
 
-  What is not modelled is a parameter (`DocEnv`): reading and writing one public key, its
-  intrinsic id (C12), and chrono's RFC 3339 reader / writer for `expires`.
+  What is not modelled here is a parameter (`DocEnv`): reading and writing one public key, its
+  intrinsic id (C12), and the RFC 3339 reader / writer for `expires`; `DocEnv.withStdTime` plugs in
+  the model of chrono's reader / writer (Model/Time.lean), which is what the driver runs.
 -/
 namespace InToto.Wire
 open InToto InToto.Rules InToto.KeyId
@@ -249,8 +251,13 @@ def inspsOfJson : JV → Option (List InspW)
   | .arr xs => allOpt inspOfJson xs
   | _ => none
 
-/-- `LayoutMetadata::new` keeps the expiry to the second (instants are in nanoseconds) -/
-def truncSec (t : Int) : Int := t - t % 1000000000
+/-- `LayoutMetadata::new` keeps the expiry to the second, a leap second stays one
+    (instants are `Time.key`s, see Model/Time.lean) -/
+def truncSec (t : Int) : Int := Time.truncKey t
+
+/-- The environment with chrono's RFC 3339 reader and writer as modelled in Model/Time.lean. -/
+def DocEnv.withStdTime {K : Type} (E : DocEnv K) : DocEnv K :=
+  { E with fmtTime := Time.fmtTimeKey, parseTime := Time.parseTimeKey }
 
 def layoutOfJson (E : DocEnv K) : JV → Option (LayoutW K)
   | .obj kvs =>
